@@ -58,7 +58,7 @@ def one(sid):
 
 
 def main():
-    ids = sys.argv[1:] or sorted(x for x in os.listdir(os.path.join(VERIF, "seeded")) if os.path.isdir(os.path.join(VERIF, "seeded", x)))
+    ids = sys.argv[1:] or sorted(x for x in os.listdir(os.path.join(VERIF, "seeded")) if x.startswith("s") and os.path.isdir(os.path.join(VERIF, "seeded", x)))
     par = int(os.environ.get("REGRESS_PARALLEL") or 2)
     results = {}
     with cf.ThreadPoolExecutor(max_workers=par) as ex:
